@@ -177,9 +177,24 @@ def r3b(run):
     ck = [c for c in hb.calls() if c.bb in hb.live_blocks() and c.fn.endswith("::contains_key") and "HashMap" in c.fn]
     ins = [c for c in hb.calls() if c.bb in hb.live_blocks() and c.fn.endswith("::insert") and "HashMap" in c.fn and "GeneratorTask" in c.fnx]
     sps = q.live_calls(hb, MOD + "::spawn")
-    run.exact("already-running tests in handle_spawn_event", len(ck), 1, hb.sp)
     run.exact("task registrations in handle_spawn_event", len(ins), 1, hb.sp)
     run.exact("spawn calls in handle_spawn_event", len(sps), 1, hb.sp)
+    if ins:
+        # whatever refuses a spawn does so BEFORE the registry is written: a refused spawn must not replace the running task's record
+        late_err = []
+        for (rb, e, raw) in hb.return_defs():
+            x = strip(e)
+            is_err = (x[0] == "agg" and x[1].get("variant") == "Err") or (x[0] == "call" and x[1].fn.endswith("from_residual"))
+            if is_err and (q.reaches(hb, ins[0].bb, rb) or rb == ins[0].bb):
+                late_err.append(hb.blocks[rb]["term"]["sp"])
+        run.ob(fn + "|refusal-precedes-registration", not late_err, ins[0].sp,
+               "no Err return is reachable after the registry write: a spawn that is refused (it becomes .spawn.error) leaves the running generator's record untouched (%s)" % late_err,
+               reason="running-generator-replaced")
+    member_tests = 0
+    for bb, si in hb.switches():
+        if any(cc.fn.endswith(("::contains_key", "::get", "::entry", "::insert", "::get_mut")) and "HashMap" in cc.fn for cc in q.calls_in(si["cond"])):
+            member_tests += 1
+    run.floor("tests of the generator registry in handle_spawn_event (is that name already running?)", member_tests, 1, hb.sp)
     if not (ck and ins and sps):
         return
     c0 = ck[0]
